@@ -24,6 +24,10 @@ def pair_corpus():
          [rx("[ab_]{2}", inc=3), rx("€+", inc=4), tok("a", inc=50)], [skip("b")])
     pair("p3", [rx(b"[a-z]+", inc=1), rx(rb"[\x80-\xff]", inc=2)], [skip(b" ")],
          [rx(rb"(?s-u:.)", inc=1), rx(b"ab", inc=20)], [], utf8=False)
+    # characters whose encodings contain the bytes 80 and BF (the first and the last continuation byte): U+00BF is
+    # C2 BF, U+00FF is C3 BF, U+0080 is C2 80, U+FFFF is EF BF BF
+    pair("p4", [rx("[a-z]+", inc=1), tok("\u00bf", inc=2), rx("\u00ff+", inc=3), tok("\u0080", inc=4)], [skip(" ")],
+         [rx("[a-z\u00bf\u00ff\u0080\uffff]", inc=10), tok("\uffff\uffff", inc=7)], [])
     return P
 
 
